@@ -230,9 +230,15 @@ def run_history(rec, case):
                 R.post_raw(s, '8x')
                 kill(s, 'protocol error')
             elif k < 0.65 and s.mode == 'websocket':
-                how = rng.choice(['close', 'vanish'])
-                R.ws_close(s, how)
-                kill(s, 'transport close' if how == 'close' else 'silence')
+                how = rng.choice(['close', 'vanish', 'break'])
+                if how == 'break':
+                    # the server's writes on the socket start failing
+                    R.ws_break(s)
+                    kill(s, 'silence')
+                else:
+                    R.ws_close(s, how)
+                    kill(s, 'transport close' if how == 'close'
+                         else 'silence')
             elif k < 0.72:
                 R.vanish(s)
                 kill(s, 'silence')
